@@ -1,7 +1,7 @@
 (* C18 — SPNEGO HTTP client authenticates once, replays the body, and terminates. *)
 From Gokrb5.lib Require Import Bytes JV.
 From Gokrb5.model Require Import HttpClient.
-From Gokrb5.proofs Require Import HttpClientProofs.
+From Gokrb5.proofs Require Import HttpClientProofs HttpClientTrace.
 
 (* For every sequence of server responses the call returns - the server's final response or the
    redirect-limit error - after at most 22 requests. *)
@@ -29,3 +29,28 @@ Theorem C18_do_pinned_diverges_refuted : forall fuel i redirects authed sent,
   do_pinned fuel (fun _ => R401Nego) i redirects authed sent = OutOfFuel.
 Proof. exact do_pinned_diverges_refuted. Qed.
 Print Assumptions C18_do_pinned_diverges_refuted.
+
+(* What is returned and how it was reached: the request flags start with a token-less request; every exchange
+   but the last is a bare challenge to a token-less request answered with a token, or a redirect followed by
+   a token-less request; the value returned is the server's response to the last request sent - never a
+   redirect (the redirect-limit error apart), never a bare challenge that was not answered with a token. *)
+Theorem C18_returns_final_response : forall script,
+  let o := do_ 64 script 0 0 false [] in
+  exists ext, sent_of o = false :: ext /\ returned_ok script 0 (false :: ext) o /\
+              (forall k, (k < length ext)%nat -> step_ok script 0 (false :: ext) k).
+Proof. exact do_trace_fresh. Qed.
+Print Assumptions C18_returns_final_response.
+
+(* the client retries a bare challenge with an Authorization header *)
+Theorem C18_challenge_answered_with_token : forall script k,
+  let fl := sent_of (do_ 64 script 0 0 false []) in
+  (S k < length fl)%nat -> script k = R401Nego -> nth k fl true = false -> nth (S k) fl false = true.
+Proof. exact challenge_answered. Qed.
+Print Assumptions C18_challenge_answered_with_token.
+
+(* a token never follows a redirect to the next hop *)
+Theorem C18_redirect_drops_token : forall script k,
+  let fl := sent_of (do_ 64 script 0 0 false []) in
+  (S k < length fl)%nat -> script k = R302 -> nth (S k) fl true = false.
+Proof. exact redirect_drops_token. Qed.
+Print Assumptions C18_redirect_drops_token.
